@@ -5,7 +5,7 @@
    blocks ([okdeleg]), patterns without
    a conditional inside an atomic group, look-around or condition (predicate [oke true]). *)
 From FR Require Import Base State Utf8 Utf8Facts Chars Ast Analyze Sem ExprLemmas SemSound GoBack
-                       Vm Compile StateRefine VmRefine Machine CompileCorrect RunCorrect.
+                       Vm Compile StateRefine VmRefine Machine Atomize CompileCorrect RunCorrect.
 From Coq Require Import Lia NArith.
 
 Lemma firstn_repeat' {A} (x : A) : forall n m, n <= m -> firstn n (repeat x m) = repeat x n.
@@ -99,3 +99,102 @@ Proof.
 Qed.
 
 End E2E.
+
+(* ====================================================================================== *)
+(* Stage 2: every compiled program.  The VM implements the reference semantics of the
+   ATOMIZED tree (Proofs/Atomize.v): blocks handed to the automata engine are atomic.      *)
+(* ====================================================================================== *)
+Section E2ED.
+Variable cs : list (list nat).
+Hypothesis W : valid_chars cs.
+Variable cx : ctx.
+Hypothesis Htext : c_text cx = concat cs.
+Hypothesis Hlen : (N.of_nat (length (concat cs)) < usize_max)%N.
+Hypothesis Hpos : bnd cs (c_pos cx).
+Variable bs : N -> bool.
+Variable e : expr.
+Variable p : prog.
+Hypothesis Hcomp : compile bs (wrap e) = inr p.
+Hypothesis Hok : oke true 0 (wrap e).
+
+Let NC := 2 * S (ngroups e).
+Let fuel := S (length (c_text cx)).
+
+(* the reference search over the tree the program implements *)
+Definition dsearch : option (list val) :=
+  match sem cx (atomize bs (wrap e) 0 false) fuel 0 (c_pos cx, init_caps (S (ngroups e))) with
+  | s :: _ => Some (end_fix (snd s))
+  | [] => None
+  end.
+
+Theorem machine_agreesD max_st :
+  NC <= p_nsaves p /\ exists o, steps cx (p_body p) max_st (Run 0 (c_pos cx) (repeat MAXV (p_nsaves p)) [] []) (Halt o) /\
+    match o with
+    | RMatch sv => dsearch = Some (firstn NC sv) /\ NC <= length sv
+    | RNoMatch => dsearch = None
+    | _ => False
+    end.
+Proof.
+  unfold compile in Hcomp.
+  destruct (visit bs (wrap e) 0 false 0 (ngroups (wrap e) * 2)) as [er|[code ns']] eqn:Hv; [discriminate|].
+  inversion Hcomp; subst p. clear Hcomp. cbn [p_body p_nsaves] in *.
+  assert (Eg : ngroups (wrap e) * 2 = NC) by (rewrite ngroups_wrap; unfold NC; lia).
+  rewrite Eg in Hv.
+  assert (HAt : At (code ++ [IEnd]) 0 code).
+  { intros k i Hk. cbn [Nat.add]. rewrite nth_error_app1; auto. apply nth_error_Some. congruence. }
+  assert (HNC : 2 <= NC) by (unfold NC; lia).
+  assert (Hfuel : length (concat cs) < fuel) by (unfold fuel; rewrite Htext; lia).
+  assert (HfS : FuelS cx fuel) by reflexivity.
+  pose proof (visit_okdeleg2 cs Hlen bs NC HNC fuel Hfuel _ _ _ _ _ _ _ Hv) as Hnd.
+  destruct (seg_allD cs W cx Htext Hlen bs (code ++ [IEnd]) max_st NC HNC fuel Hfuel HfS true (wrap e)
+              0 false 0 NC code ns' Hv Hnd HAt Hok (le_n _) ltac:(rewrite ngroups_wrap; unfold NC; lia)) as [Hm G].
+  set (v0 := {| v_ix := c_pos cx; v_sl := repeat MAXV ns'; v_aux := [] |}).
+  assert (Hcaps0 : caps NC (v_sl v0) = init_caps (S (ngroups e))).
+  { unfold caps, v0, init_caps; cbn [v_sl]. fold NC. rewrite firstn_repeat' by lia. reflexivity. }
+  assert (Hok0 : st_ok cs (sof NC v0)).
+  { split; [exact Hpos|]. cbn [sof snd]. rewrite Hcaps0. unfold init_caps. apply Forall_forall.
+    intros x Hx. apply repeat_spec in Hx. subst. exact I. }
+  specialize (G v0 [] ltac:(unfold v0; cbn [v_sl]; rewrite repeat_length; lia) Hok0).
+  split; [exact Hm|].
+  unfold dsearch. change (sof NC v0) with (c_pos cx, caps NC (v_sl v0)) in G. rewrite Hcaps0 in G.
+  assert (HEnd : at_ (code ++ [IEnd]) (0 + length code) IEnd).
+  { unfold at_. cbn [Nat.add]. rewrite nth_error_app2 by lia. now rewrite Nat.sub_diag. }
+  destruct (sem cx (atomize bs (wrap e) 0 false) fuel 0 (c_pos cx, init_caps (S (ngroups e)))) as [|x rest]; cbn [map] in G.
+  - inversion G as [c Hs|]; subst. exists RNoMatch. split; auto.
+    eapply steps_trans; [exact Hs|]. apply steps_step. reflexivity.
+  - inversion G as [|c v' F Q Ps Hs HF HQ Hrest]; subst. destruct HQ as (Hi & Hc & Hax & [HL HFr]).
+    destruct (step_endinsn cx (code ++ [IEnd]) max_st (0 + length code) (v_ix v') (v_sl v') (v_aux v') (F ++ []) HEnd) as (sv & Hst & Hlsv & Hfirst).
+    { rewrite HL. unfold v0; cbn [v_sl]. rewrite repeat_length. lia. }
+    exists (RMatch sv). split.
+    + eapply steps_trans; [exact Hs|]. apply steps_step. exact Hst.
+    + split.
+      * rewrite (Hfirst NC HNC). fold (caps NC (v_sl v')). rewrite Hc. reflexivity.
+      * rewrite Hlsv, HL. unfold v0; cbn [v_sl]. rewrite repeat_length. lia.
+Qed.
+
+Theorem vm_agrees_atomized max_st lim fuelv :
+  match fst (vm_run cx p max_st lim fuelv) with
+  | RMatch sv => dsearch = Some (firstn NC sv)
+  | RNoMatch => dsearch = None
+  | RPanic => False
+  | _ => True
+  end.
+Proof.
+  destruct (machine_agreesD max_st) as (HnN & o & Hs & Ho).
+  assert (Hn2 : 2 <= p_nsaves p) by (unfold NC in HnN; lia).
+  pose proof (loop_follows_machine cx p max_st lim fuelv (p_nsaves p) o Hs) as H1.
+  assert (HR : Rel (st_new (p_nsaves p) max_st) (r_new (p_nsaves p) max_st)).
+  { split; [split; [apply WF_new|cbn [st_new esp]; exact Hn2]|apply abs_new]. }
+  pose proof (run_sim cx p lim fuelv 0 (c_pos cx) _ _ 0%N stats0 HR) as H2.
+  unfold vm_run, run_loop.
+  destruct (grun_loop cx rstate iface1 p lim fuelv 0 (c_pos cx) (r_new (p_nsaves p) max_st) 0%N stats0) as [o1 st1].
+  destruct (grun_loop cx state iface0 p lim fuelv 0 (c_pos cx) (st_new (p_nsaves p) max_st) 0%N stats0) as [o0 st0].
+  cbn [fst] in *. destruct H2 as [H2 _]. destruct H1 as [H1|H1].
+  - subst o1. destruct o as [sv| | | | |]; try contradiction; cbn [out_rel] in H2.
+    + destruct H2 as (sv0 & n & E0 & Hn). subst o0. destruct Ho as [Ho HlNC]. rewrite Ho. f_equal. rewrite <- Hn.
+      rewrite firstn_firstn. f_equal. rewrite <- Hn in HlNC. rewrite firstn_length in HlNC. lia.
+    + subst o0. exact Ho.
+  - destruct H1 as [E1|[E1|E1]]; subst o1; cbn [out_rel] in H2; subst o0; exact I.
+Qed.
+
+End E2ED.
